@@ -58,7 +58,7 @@ PROP = {
     'C05': dict(engines=['codec'], fresh=True),
     'C06': dict(engines=['total'], fresh=True),
     'C07': dict(engines=['alias'], fresh=True),
-    'C08': dict(engines=['reflectdiff'], fresh=True),
+    'C08': dict(engines=['reflectdiff', 'reflectexh'], fresh=True),
     'C09': dict(engines=['nilread'], fresh=True),
     'C10': dict(engines=['libdiff'], fresh=True),
     'C11': dict(engines=['conc'], fresh=True, race=True),
@@ -480,7 +480,7 @@ RULES['C16'] = 'seeded values of every subject type packed with New / MarshalFro
 RULES['C17'] = 'Add/AddStd/Compare vs math/big nanosecond arithmetic: exhaustive grid over carry/borrow boundary values of nanos x sign combinations x range extremes, seeded random valid (t,d) pairs, an overflow class with arbitrary int64 seconds; Compare on all pairs of a pool incl. equal and adjacent instants + transitivity triples; non-trivial = non-zero duration / distinct pool elements'
 RULES['C18'] = 'rapidproto.MessageGenerator draws (rapid Example with seeded seeds) for every subject type and a dynamicpb twin under the 16 combinations of NoEmptyLists / DisallowNilMessages / a string field mapper / Any type URLs; every drawn message is walked by reflection (UTF-8, Timestamp/Duration validity, Any resolvable+decodable, FieldMask paths, declared enum numbers, option obligations) and round-tripped through the reference codec; distinct by type+options+seed'
 
-RULES['C08'] = 'operation histories (30-60 steps, seeded) over Has/Get/Set/Clear/Mutable/NewField/WhichOneof/Range/GetUnknown/SetUnknown/IsValid and every List and Map method, with retained view handles (lists, maps, nested messages, detached NewField values, read-only empty views) driven in lock-step on fast reflection, protobuf-go table-driven reflection over a second struct of the same type, and dynamicpb; after every step return values, validity flags, panics and the full message state (Go struct read with package reflect vs dynamicpb state, and the generated Range view vs its own struct) are compared; a third of the histories start from a populated message; non-trivial = history has >=1 step; distinct by type + operation sequence'
+RULES['C08'] = 'operation histories (30-60 steps, seeded; plus EXHAUSTIVELY every sequence of up to 3 (quick) / 4 (thorough) letters of a 73-letter alphabet of short reflection operations on the compact all-shapes message vf.small.Small) over Has/Get/Set/Clear/Mutable/NewField/WhichOneof/Range/GetUnknown/SetUnknown/IsValid and every List and Map method, with retained view handles (lists, maps, nested messages, detached NewField values, read-only empty views) driven in lock-step on fast reflection, protobuf-go table-driven reflection over a second struct of the same type, and dynamicpb; after every step return values, validity flags, panics and the full message state (Go struct read with package reflect vs dynamicpb state, and the generated Range view vs its own struct) are compared; a third of the histories start from a populated message; non-trivial = history has >=1 step; distinct by type + operation sequence'
 
 RULES['C09'] = 'EXHAUSTIVE over subject types x fields x listed reads: for (*T)(nil), Type().Zero(), new(T) and the read-only values returned by Get for every unpopulated message/list/map field (chains to depth 3): Has, Get (vs dynamicpb defaults), Range, WhichOneof, GetUnknown, IsValid, Size, Marshal, MarshalAppend, Equal (both orders), Clone, Merge-from, protojson/prototext (vs reference output), CheckInitialized; writes (Set, Mutable, SetUnknown, List.Append, Map.Set) must panic; structs holding nil list elements, nil map values and oneof wrappers holding nil are compared with protobuf-go reflection over an identical struct on 9 read-only entry points; distinct by type + subject kind'
 
@@ -507,13 +507,37 @@ def check_engine(prop, tier, seed, repo, keep):
     t0 = time.time()
     cfg = PROP[prop]
     with Work(prop, repo, tier, seed, keep) as w:
-        bins = w.prepare_harness(fresh=cfg.get('fresh', True))
+        thorough = tier == 'thorough'
+        bins = w.prepare_harness(fresh=cfg.get('fresh', True), variants=('plain', 'race') if thorough else ('plain',))
         reps = []
         for eng in cfg['engines']:
             reps += w.run_engine(bins['plain'], eng)
+        san = {}
+        san_viol = []
+        if thorough:
+            # sanitizer slice: the same engines at quick size in a -race build (race detector + checkptr instrumentation)
+            logbase = w.p('zzout', 'san-race')
+            for eng in cfg['engines']:
+                try:
+                    sreps = w.run_engine(bins['race'], eng, shards=8, timeout=3000, args=['-tier', 'quick'],
+                                         env={'GORACE': 'halt_on_error=0 exitcode=0 log_path=%s' % logbase})
+                    reps += sreps
+                except Broken as e:
+                    if 'checkptr' in str(e) or 'fatal error' in str(e):
+                        san_viol.append(dict(prop=prop, key='sanitizer/fatal', type=eng, detail='the -race/checkptr build of engine %s died:\n%s' % (eng, str(e)[-2500:]), replay=dict(engine=eng, build='race')))
+                    else:
+                        raise
+            blocks = parse_race_logs(logbase + '.*')
+            san = dict(sanitizer='Go race detector + checkptr (-race build), quick-size slice of the workload', race_reports=len(blocks))
+            for sig, txt, subj in blocks[:10]:
+                if subj:
+                    san_viol.append(dict(prop=prop, key='sanitizer/data-race', type=sig, detail=txt, replay=dict(engine=cfg['engines'][0], build='race')))
         merged = merge_reports(reps, prop)
+        merged['violations'] += san_viol
+        merged['n_violations'] += len(san_viol)
         add_init_failures(prop, w, merged)
         gen_extra = gen_summary(w)
+        gen_extra.update(san)
         floors = FLOORS[prop]
         return finish(prop, tier, seed, t0, merged, RULES[prop], ASSUME, floors[0], floors[1], extra=gen_extra)
 
